@@ -16,7 +16,8 @@ attributed to exactly one input):
   define      every NAME[=BODY] of the -D alphabets, byte strings
 
 Modes (one execution each):  I  interrogate -v -python-native -oc -od -oh
-                             I2 interrogate -c -python -promiscuous ... (only where I exited 0)
+                             I2 interrogate -c -python -promiscuous -fnames -string -refcount -assert
+                                                    (only where I exited 0)
                              P  parse_file          (only where I exited 0: the parse itself is the
                                                      same library code; what P adds is the printer)
                              E  parse_file -E       (token stream printer; reduced bounds)
